@@ -305,6 +305,20 @@ def resolve_unwindset(u, loops, tier, defs):
     return []
 
 
+def regen_bodies(u, gb, workdir, tag, kind, functions, option, cmds):
+    cur = gb
+    for k, f in enumerate(functions):
+        nxt = os.path.join(workdir, "%s.%s.%s%d.gb" % (u["unit"], tag, kind, k))
+        gi = ["goto-instrument", "--remove-function-body", f, "--generate-function-body", f,
+              "--generate-function-body-options", option, cur, nxt]
+        cmds.append(" ".join(gi))
+        rc, out, err, _ = sh(gi, timeout=300)
+        if rc != 0 or "Removing body of " + f not in (out + err):
+            raise ToolError("goto-instrument could not replace the body of %s in %s: %s" % (f, u["unit"], (out + err)[-1500:]))
+        cur = nxt
+    return cur
+
+
 def build_unit(u, tier, workdir, cfg, extra_defs=(), tag="p"):
     """goto-cc + goto-instrument; returns (instrumented binary path, unwindset args, cmds)"""
     src = os.path.join(VERIF, "units", u["source"])
@@ -328,32 +342,14 @@ def build_unit(u, tier, workdir, cfg, extra_defs=(), tag="p"):
         igb = gb
         if u.get("havoc_functions"):
             # callees that have their own unit and no effect this unit looks at: body replaced by "return an arbitrary value"
-            igb2 = os.path.join(workdir, "%s.%s.h.gb" % (u["unit"], tag))
-            gi = ["goto-instrument"]
-            for f in u["havoc_functions"]:
-                gi += ["--remove-function-body", f]
-            gi += ["--generate-function-body", "|".join("(%s)" % f for f in u["havoc_functions"]),
-                   "--generate-function-body-options", "nondet-return", gb, igb2]
-            cmds.append(" ".join(gi))
-            rc, out, err, _ = sh(gi, timeout=300)
-            if rc != 0:
-                raise ToolError("goto-instrument (havoc_functions) failed for %s: %s" % (u["unit"], (out + err)[-2000:]))
-            gb = igb2
+            # (one goto-instrument call per function: a long alternation regex makes --generate-function-body take minutes)
+            gb = regen_bodies(u, gb, workdir, tag, "h", u["havoc_functions"], "nondet-return", cmds)
             igb = gb
         if u.get("cut_functions"):
             # functions the unit's precondition makes unreachable but whose bodies symex would still explore (e.g. the mutually
             # recursive append path of the option editors): body replaced by assert(false); assume(false) - reaching one fails
             # an obligation ("<fn> is not reached in this unit")
-            igb = os.path.join(workdir, "%s.%s.c.gb" % (u["unit"], tag))
-            gi = ["goto-instrument"]
-            for f in u["cut_functions"]:
-                gi += ["--remove-function-body", f]
-            gi += ["--generate-function-body", "|".join("(%s)" % f for f in u["cut_functions"]),
-                   "--generate-function-body-options", "assert-false-assume-false", gb, igb]
-            cmds.append(" ".join(gi))
-            rc, out, err, _ = sh(gi, timeout=300)
-            if rc != 0:
-                raise ToolError("goto-instrument (cut_functions) failed for %s: %s" % (u["unit"], (out + err)[-2000:]))
+            igb = regen_bodies(u, igb, workdir, tag, "c", u["cut_functions"], "assert-false-assume-false", cmds)
         uw = []
         if u["unwindset"]:
             rc, lo, le, _ = sh(["cbmc", igb, "--show-loops"], timeout=120)
